@@ -6,6 +6,7 @@ Parts (each a list of cases; `check(inp)` runs one case and returns None or a fa
                   start points inside the bounds (uniform and prior-drawn); plus real L-BFGS-B runs
   add-noise       AcquisitionBase._add_noise / acquire with scalar / per-parameter / zero / no noise on points incl. the box corners
   uniform         UniformAcquisition.acquire
+  rules           ExpIntVar (grid / importance), MaxVar, LCBSC acquire(n, t) called directly on a fitted surrogate: exactly n points inside the bounds
   randmaxvar      RandMaxVar.acquire (metropolis): exactly n points or ValueError; inside the bounds when the prior support is inside the
                   bounds; the case prior support NOT inside the bounds is the known finding C11-F8 (signature c11:prior-support-not-in-bounds)
   bo              BayesianOptimization runs with tiny budgets (n_evidence <= 12) under a schedule-driven client (is_ready answers from a
@@ -226,7 +227,17 @@ def check_uniform(inp):
     return None
 
 
+_gp_cache = {}
+
+
 def _fitted_gp(elfi, seed, n=8):
+    """a surrogate fitted to n random points (read-only for the checks that use it, so one per seed and process)"""
+    if (seed, n) not in _gp_cache:
+        _gp_cache[(seed, n)] = _fit_gp(elfi, seed, n)
+    return _gp_cache[(seed, n)]
+
+
+def _fit_gp(elfi, seed, n):
     from elfi.methods.bo.gpy_regression import GPyRegression
     gp = GPyRegression(GP_NAMES, bounds=BOUNDS, max_opt_iters=20)
     rs = np.random.RandomState(seed)
@@ -264,6 +275,46 @@ def check_randmaxvar(inp):
         return None
     finally:
         ec.set_client(None)
+
+
+def check_rule_acquire(inp):
+    """direct acquire(n, t) of a model-based rule on a fitted surrogate: exactly n points inside the bounds"""
+    elfi = native.import_elfi()
+    from elfi.methods.bo import acquisition as A
+    from elfi.model.extensions import ModelPrior
+    import elfi.client as ec
+    ec.set_client(sched_client(elfi, [1], 1))
+    try:
+        m, _ = build_model(elfi)
+        gp = _fitted_gp(elfi, inp['seed'])
+        prior = ModelPrior(m, parameter_names=GP_NAMES)
+        lo, hi = _lohi()
+        kw = dict(n_inits=2, max_opt_iters=15, seed=inp['seed'])
+        rule = inp['rule']
+        if rule == 'maxvar':
+            acq = A.MaxVar(gp, prior, **kw)
+        elif rule == 'lcbsc':
+            acq = A.LCBSC(gp, prior=prior, noise_var=inp.get('noise_var', 0.3), **kw)
+        else:
+            acq = A.ExpIntVar(gp, prior, integration=rule.split('-')[1], d_grid=0.5, sampler='metropolis', n_samples=40, n_samples_imp=10, **kw)
+        for t in range(inp.get('t', 0) + 1):          # acquisition indices in the order BO uses them: 0, 1, ...
+            with native.time_limit(60):
+                x = np.asarray(acq.acquire(inp['n'], t=t), float)
+            if x.shape != (inp['n'], 2):
+                return '%s.acquire(%d, t=%d) returned shape %r' % (rule, inp['n'], t, x.shape)
+            if not _inside(x, lo, hi):
+                return '%s.acquire returned a point outside the bounds: %r' % (rule, x[~np.all((x >= lo) & (x <= hi), axis=1)][0].tolist())
+        return None
+    finally:
+        ec.set_client(None)
+
+
+def rule_cases(tier, seed):
+    out = []
+    for rule in ('expintvar-grid', 'expintvar-importance', 'maxvar', 'lcbsc'):
+        for n in ((1, 4) if tier == 'quick' else (1, 2, 4, 7)):
+            out.append(dict(kind='rule-acquire', rule=rule, n=n, t=n % 2, seed=seed + n))
+    return out
 
 
 # ------------------------------------------------------------------------------------------------ BO runs
@@ -341,7 +392,7 @@ def run_bo(inp):
                 return 'acquire asked for %d points, batch_size * batches_per_acquisition = %d' % (a['n'], b * bo.batches_per_acquisition), None
             if not _inside(a['x'], lo, hi):
                 bad = a['x'][~np.all((a['x'] >= lo) & (a['x'] <= hi), axis=1)][0]
-                return 'acquired point %r outside the bounds (%s in %r)' % (bad.tolist(), GP_NAMES, list(zip(lo, hi))), None
+                return 'acquired point %r outside the bounds (%s in %r)' % (bad.tolist(), GP_NAMES, [BOUNDS[n] for n in GP_NAMES]), None
             if not async_acq and a['pending'] != 0:
                 return 'acquire(t=%r) was called with %d batches pending although async_acq=False' % (a['t'], a['pending']), None
         if [i for i, _ in consumed] != list(range(len(consumed))):
@@ -442,6 +493,8 @@ def check(inp):
         return check_uniform(inp)
     if k == 'randmaxvar':
         return check_randmaxvar(inp)
+    if k == 'rule-acquire':
+        return check_rule_acquire(inp)
     if k == 'gradient':
         return check_gradient(inp)
     if k == 'bo':
@@ -458,7 +511,7 @@ def check(inp):
 
 
 SIGNATURES = {'minimize': 'c11:minimize', 'add-noise': 'c11:add-noise', 'uniform': 'c11:uniform-acquisition', 'gradient': 'c11:gradient',
-              'bo': 'c11:bo-run', 'bo-schedules': 'c11:schedule-dependent-evidence'}
+              'bo': 'c11:bo-run', 'rule-acquire': 'c11:rule-acquire', 'bo-schedules': 'c11:schedule-dependent-evidence'}
 
 
 def signature(inp, what):
@@ -530,6 +583,9 @@ def run(tier='quick', seed=0, which=None):
         groups.append(_group('add-noise', '9 noise settings (none / 0 / scalar 1e-6..25 / per-parameter with zeros) on 8 points incl. the box corners',
                              'non-trivial = some variance > 0', add_noise_cases(tier, seed), lambda i: i['noise_var'] not in (None, 0, 0.0)))
         groups.append(_group('uniform-acquisition', 'n in 1..6', 'every case', [dict(kind='uniform', n=n, seed=seed + n) for n in range(1, 7)]))
+    if want('rules'):
+        groups.append(_group('model-based-rules-acquire', 'ExpIntVar (grid / importance), MaxVar, LCBSC(noise 0.3): acquire(n, t) for n in 1..7 on a surrogate fitted to 8 points',
+                             'every case', rule_cases(tier, seed)))
     if want('randmaxvar'):
         groups.append(_group('randmaxvar-acquire', 'metropolis sampler, chain length 20-40, n from 1 to n_samples+1, three prior supports',
                              'non-trivial = n > 1', randmaxvar_cases(tier, seed), lambda i: i['n'] > 1))
